@@ -41,6 +41,12 @@ func c16(tier string) int {
 		{Name: "pool-busy", Params: "w=1,k=1,s=1,l=0", MaxBound: 99, Label: "pool-busy-unbounded"},
 		{Name: "pool-busy", Params: "w=2,k=5,s=1,l=1", MaxBound: 1, Label: "pool-busy-two-workers"},
 		{Name: "pool-restart", Params: "w=2", MaxBound: 1, Label: "pool-restart-two-workers"},
+		// lock discipline under the life-cycle lock: the same programs with the writer preference of
+		// sync.RWMutex modelled (a pending Lock blocks new RLocks), one deviation less
+		{Name: "pool-stop-busy", Params: "wa=1", MaxBound: b - 1, Label: "pool-stop-busy+writer-preference"},
+		{Name: "pool-stop-deferring", Params: "wa=1", MaxBound: b - 1, Label: "pool-stop-deferring+writer-preference"},
+		{Name: "pool-stop", Params: "w=1,k=2,g=0,wa=1", MaxBound: b - 1, Label: "pool-stop+writer-preference"},
+		{Name: "pool-busy", Params: "w=1,k=4,s=1,l=1,wa=1", MaxBound: b - 1, Label: "pool-busy+writer-preference"},
 	}
 	if tier == "thorough" {
 		items = append(items,
